@@ -89,12 +89,16 @@ def construct(env, t, v, cfg, with_neighbours=True, tag=""):
         return B
     B.buf = make_buffer(env, cfg, tag)
     vin = V.to_form(t, v, cfg.get("form", "python"))
+    if cfg.get("form") == "omit" and t[0] == "struct":
+        # static scalar fields left out of the constructor call take their default (zero)
+        vin = {fn: vin[fn] for fn, ft in t[2] if ft[0] != "scalar"}
+        B.exp = {fn: (V.expected(ft, 0) if ft[0] == "scalar" else B.exp[fn]) for fn, ft in t[2]}
     # an explicit region is reserved while the free list is still pristine: it is then disjoint
     # from everything allocated later (the neighbours, reference targets)
     kw = place_kwargs(env, cfg, B.buf, planned_size(t, vin) + 64, tag)
     B.nbL = NEIGHBOUR(NB_L, _buffer=B.buf) if with_neighbours else None
     B.mark = env.mark()
-    B.obj = V.make(t, vin, **kw)
+    B.obj = V.make(t, vin, form=cfg.get("form"), **kw)
     B.mark_after = env.mark()
     B.nbR = NEIGHBOUR(NB_R, _buffer=B.buf) if with_neighbours else None
     return B
